@@ -163,8 +163,9 @@ func c20CtrlBody(st *c20Ctrl, startAt int64, ap [2]string, epochs int, attestDur
 			}
 		}
 	}
+	lateBy := phase0.Slot(0) // the head reported is that of this many slots ago
 	deliver := func(kind string, prev, cur byte) {
-		s := w.slotAt(mc.Now())
+		s := w.slotAt(mc.Now()) - lateBy
 		w.events = append(w.events, fmt.Sprintf("%s@slot%d", kind, s))
 		ev.deliver("head", &apiv1.HeadEvent{Slot: s, Block: root(byte(s)), PreviousDutyDependentRoot: root(prev), CurrentDutyDependentRoot: root(cur)})
 	}
@@ -190,7 +191,8 @@ func c20CtrlBody(st *c20Ctrl, startAt int64, ap [2]string, epochs int, attestDur
 	end := phase0.Slot((uint64(c03Epoch0) + uint64(epochs)) * c03SPE)
 	// the first slot of every epoch after the first may be empty (no block, hence no head event in it)
 	// ... or the beacon node delivers no head event at all during the third epoch of the run (an outage)
-	headMode := mc.Choose(3)
+	// ... or reports every head only after its slot has ended (13 s after the slot's start), from the second epoch on
+	headMode := mc.Choose(4)
 	skipFirst := headMode == 1
 	stalled := phase0.Epoch(c03Epoch0 + 2)
 	for s := w.slotAt(mc.Now()); s < end; s++ {
@@ -201,6 +203,10 @@ func c20CtrlBody(st *c20Ctrl, startAt int64, ap [2]string, epochs int, attestDur
 		}
 		if headMode == 2 && phase0.Epoch(uint64(s)/c03SPE) == stalled && int(s)-c03Epoch0*c03SPE != reorgSlot {
 			at = -1
+		}
+		lateBy = 0
+		if headMode == 3 && phase0.Epoch(uint64(s)/c03SPE) > phase0.Epoch(c03Epoch0) && int(s)-c03Epoch0*c03SPE != reorgSlot {
+			lateBy = 1 // one second into this slot the node reports the head of the slot before
 		}
 		if at > mc.Now() {
 			mc.Sleep(at - mc.Now())
